@@ -1,5 +1,827 @@
-import BareModel.Data
-import BareProofs.C11
+import BareProofs.C19Agg
+import BareProofs.C19Join
+import BareProofs.C19Csv
+
+/-!
+# C19 — data functions implement their relational meaning; CSV typing round-trips
+
+All theorems are about the mirror layer of `BareModel/Data.lean` (data.py / library.py) and hold for **all** tables: any
+number of rows and fields, any closed values.  Expression evaluation is the parameter `eval`/`ev` (property C03).
+
+* dataFilter            `filter_spec`, `filter_raises_iff`
+* dataCalculatedField   `calc_spec`, `calc_sets_field`, `calc_raise_partial_update`
+* dataSort              `sort_spec` (via C11: sorted, permutation, stable, unique)
+* the typed bucket key  `bucket_key_faithful`, `key_text_faithful`; buckets = groups: `bucketRows_eq_groupSpec`
+* dataTop               `top_spec`, `top_first_n_of_each_category`
+* dataAggregate         `aggregate_spec`, `aggregate_partition`, `agg_count`, `agg_sum_average_stddev`,
+                        `agg_min_max_homogeneous`, `agg_mixed_types_fail`
+* dataJoin              `right_names_spec`, `join_spec`, `join_pairs_equal_values`, `join_never_overwrites_left`, `join_raises`
+* CSV                   `validate_column`, `csv_typing_roundtrip_partial`, `datelike_kept_string`
+-/
 
 namespace C19
+open Compare Data
+
+/-! ## dataFilter -/
+
+/-- **dataFilter keeps exactly the rows whose expression value is truthy, in order** (the rows themselves: the result is
+`List.filter` of the input). -/
+theorem filter_spec (ev : Row → PValue) (data : Table) :
+    filterData (fun r => some (ev r)) data = some (data.filter (fun r => truthy (ev r))) := by
+  have := filterLoop_some (fun r => some (ev r)) data [] (fun _ _ => by simp)
+  simpa [filterData, keeps] using this
+
+/-- … for a partial evaluator: the call raises iff the evaluation raises on some row; otherwise it is the filter. -/
+theorem filter_raises_iff (eval : Row → Option PValue) (data : Table) :
+    (filterData eval data = none ↔ ∃ r ∈ data, eval r = none) ∧
+    ((∀ r ∈ data, eval r ≠ none) → filterData eval data = some (data.filter (keeps eval))) := by
+  refine ⟨⟨fun h => ?_, fun h => filterLoop_none eval data [] h⟩, fun h => by simpa [filterData] using filterLoop_some eval data [] h⟩
+  by_cases hall : ∀ r ∈ data, eval r ≠ none
+  · have := filterLoop_some eval data [] hall
+    rw [filterData] at h; rw [h] at this; cases this
+  · simpa using hall
+
+example : filterData (fun r => some (rowGet "a" r)) [[("a", .num 1)], [("a", .null)], [("b", .num 2)], [("a", .str "x"), ("b", .null)], [("a", .num 0)]] =
+    some [[("a", .num 1)], [("a", .str "x"), ("b", .null)]] := by decide +kernel
+
+example : filterData (fun r => if rowGet "a" r = .null then none else some (rowGet "a" r)) [[("a", .num 1)], [("a", .null)]] = none := by
+  decide +kernel
+
+/-! ## dataCalculatedField -/
+
+/-- **dataCalculatedField sets the expression value on every row** (same rows, updated: `row[field] = value`). -/
+theorem calc_spec (field : String) (ev : Row → PValue) (data : Table) :
+    calcField field (fun r => some (ev r)) data = (data.map (fun r => rowSet field (ev r) r), true) :=
+  calcField_total field ev data
+
+/-- what `row[field] = value` does to a row: the field now has the value, every other field keeps its value, the field
+order is unchanged with a new field at the end, and keys stay pairwise different. -/
+theorem calc_sets_field (field : String) (v : PValue) (r : Row) :
+    rowGet field (rowSet field v r) = v ∧ (∀ k, k ≠ field → rowGet k (rowSet field v r) = rowGet k r) ∧
+    (rowSet field v r).map (·.1) = (if rowHas field r then r.map (·.1) else r.map (·.1) ++ [field]) ∧
+    ((r.map (·.1)).Nodup → ((rowSet field v r).map (·.1)).Nodup) :=
+  ⟨rowGet_rowSet_same field v r, fun k hk => rowGet_rowSet_other field k v r hk, rowSet_keys field v r, rowSet_nodup field v r⟩
+
+/-- when the evaluation raises at some row, the call raises after having updated exactly the rows before it (the update is
+in place). -/
+theorem calc_raise_partial_update (field : String) (eval : Row → Option PValue) (data : Table) :
+    ((calcField field eval data).2 = true ↔ ∀ r ∈ data, eval r ≠ none) ∧
+    (∀ pre row post, data = pre ++ row :: post → (∀ r ∈ pre, eval r ≠ none) → eval row = none →
+      calcField field eval data = (pre.map (fun r => rowSet field ((eval r).getD .null) r) ++ row :: post, false)) :=
+  ⟨calcField_done_iff field eval data, fun pre row post hd hp hn => hd ▸ calcField_raise field eval pre row post hp hn⟩
+
+example : calcField "a2" (fun r => some (rowGet "a" r)) [[("a", .num 1), ("a2", .str "old"), ("a3", .null)], [("a", .null)]] =
+    ([[("a", .num 1), ("a2", .num 1), ("a3", .null)], [("a", .null), ("a2", .null)]], true) := by decide +kernel
+
+/-! ## dataSort -/
+
+/-- **dataSort returns the rows stably ordered by the given keys and directions**: for `sorts` entries of the modelled
+shape, the result is ordered w.r.t. the lexicographic multi-key comparator (each key ascending or descending, a missing
+field is null), is a permutation of the input, keeps the relative order of rows that compare equal, and is the only list
+with these three properties (so *any* stable sort — CPython's timsort — returns it). -/
+theorem sort_spec (sorts : List PValue) (ss : List (String × Bool)) (h : sorts.mapM sortSpec = some ss) (data : Table) :
+    sortData sorts data = some (dataSort ss data) ∧
+    C11.Sorted (sortDataFn ss) (dataSort ss data) ∧ (dataSort ss data).Perm data ∧
+    (∀ r, (dataSort ss data).filter (C11.eqv (sortDataFn ss) r) = data.filter (C11.eqv (sortDataFn ss) r)) ∧
+    (∀ ys, C11.Sorted (sortDataFn ss) ys → (∀ r, ys.filter (C11.eqv (sortDataFn ss) r) = data.filter (C11.eqv (sortDataFn ss) r)) →
+      ys = dataSort ss data) := by
+  refine ⟨by simp [sortData, h], C11.dataSort_spec ss data⟩
+
+/-- how a `sorts` entry is read: `[field]` is ascending, `[field, flag]` descending iff the flag is truthy *for Python*
+(the empty object is falsy here although `value_boolean` calls it true). -/
+theorem sort_entry (f : String) (d : PValue) (rest : List PValue) :
+    sortSpec (.arr [.str f]) = some (f, false) ∧ sortSpec (.arr (.str f :: d :: rest)) = some (f, pyTruthy d) ∧
+    pyTruthy (.obj []) = false ∧ truthy (.obj []) = true ∧ sortSpec (.arr []) = none := by
+  simp [sortSpec, pyTruthy, truthy]
+
+example : sortData [.arr [.str "a", .bool true], .arr [.str "b"]]
+    [[("a", .num 1), ("b", .num 2)], [("a", .num 2)], [("b", .num 1), ("a", .num 1)], [("a", .num 2), ("c", .null)]] =
+    some [[("a", .num 2)], [("a", .num 2), ("c", .null)], [("b", .num 1), ("a", .num 1)], [("a", .num 1), ("b", .num 2)]] := by
+  decide +kernel
+
+/-! ## the typed bucket key -/
+
+/-- **The bucket key is faithful**: on the value fragment of the property (null, booleans, numbers — `1` and `1.0` are one
+number —, strings, datetimes, arrays and objects of those, recursively) two values get the same `_bucket_key` exactly when
+`value_compare` calls them equal — which happens only for values of the same type. -/
+theorem bucket_key_faithful (a b : PValue) (ha : IsData a = true) (hb : IsData b = true) :
+    (bucketKey a = bucketKey b ↔ valueCompare a b = 0) ∧ (valueCompare a b = 0 → typeName a = typeName b) := by
+  simp only [IsData, Bool.and_eq_true] at ha hb
+  refine ⟨faithful a ha.2 b hb.2, fun h => ?_⟩
+  cases a <;> cases b <;> simp [valueCompare, typeName] at h ⊢ <;> exact absurd h (by decide)
+
+/-- rows whose values are data values -/
+def RowData (r : Row) : Prop := ∀ p ∈ r, IsData.noOpaque p.2 = true
+
+theorem rowGet_noOpaque (f : String) : ∀ r : Row, RowData r → IsData.noOpaque (rowGet f r) = true
+  | [], _ => rfl
+  | (k, v) :: rest, h => by
+    by_cases e : k = f
+    · simpa [rowGet, e] using h (k, v) (by simp)
+    · simpa [rowGet, e] using rowGet_noOpaque f rest (fun p hp => h p (by simp [hp]))
+
+theorem noOpaqueList_map (r : Row) (h : RowData r) : ∀ fs : List String, IsData.noOpaqueList (fs.map (fun f => rowGet f r)) = true
+  | [] => rfl
+  | f :: fs => by simp [IsData.noOpaqueList, rowGet_noOpaque f r h, noOpaqueList_map r h fs]
+
+/-- … lifted to category keys: two rows fall into the same bucket of `dataTop`/`dataAggregate` exactly when their lists of
+category values compare equal (position by position equal values of equal types).  Strings containing JSON punctuation
+(`a.0,` vs `a,`), `1` vs `'1'` vs `true`, a datetime vs its ISO text are all kept apart: the key is structural, not text. -/
+theorem key_text_faithful (fields : List String) (r r' : Row) (h : RowData r) (h' : RowData r') :
+    catKey (some fields) r = catKey (some fields) r' ↔
+      valueCompare (.arr (fields.map (fun f => rowGet f r))) (.arr (fields.map (fun f => rowGet f r'))) = 0 := by
+  simp only [catKey, Option.map_some, Option.some.injEq]
+  exact faithful _ (by simpa [IsData.noOpaque] using noOpaqueList_map r h fields) _ (by simpa [IsData.noOpaque] using noOpaqueList_map r' h' fields)
+
+example : bucketKey (.str "a.0,") ≠ bucketKey (.str "a,") ∧ bucketKey (.num 1) ≠ bucketKey (.str "1") ∧
+    bucketKey (.num 1) ≠ bucketKey (.bool true) ∧ bucketKey (.dt 63713433600000000) ≠ bucketKey (.str "2020-01-01T00:00:00+00:00") ∧
+    bucketKey (.obj [("x", .num 1), ("y", .arr [.null])]) = bucketKey (.obj [("y", .arr [.null]), ("x", .num 1)]) ∧
+    IsData (.obj [("x", .num 1), ("y", .arr [.null])]) = true := by decide +kernel
+
+/-- **Bucketing is grouping**: filling a dict of lists keyed by `keyOf` row by row gives one entry per distinct key in
+first-appearance order, each with its rows in original order. -/
+theorem bucketRows_eq_groupSpec {κ α : Type} [DecidableEq κ] (keyOf : α → κ) (rows : List α) :
+    bucketRows keyOf rows = (dedup (rows.map keyOf)).map (fun k => (k, rows.filter (fun r => keyOf r = k))) :=
+  bucketRows_groupSpec keyOf rows
+
+/-! ## dataTop -/
+
+theorem take_min_length {α : Type} (n : Nat) (l : List α) : l.take (min n l.length) = l.take n := by
+  by_cases h : n ≤ l.length
+  · rw [Nat.min_eq_left h]
+  · rw [Nat.min_eq_right (by omega), List.take_length, List.take_of_length_le (by omega)]
+
+/-- **dataTop keeps the first `n` rows of each category**, categories in first-appearance order, rows in original order; `n`
+arrives as a number that must be integral and ≥ 1 (else the argument is rejected: null), and is used as `int(count)`. -/
+theorem top_spec (data : Table) (count : Rat) (fields : Option (List String)) :
+    dataTop data count fields =
+      if ((pyInt count : Int) : Rat) = count ∧ 1 ≤ count then some (topSpec data (pyInt count).toNat fields) else none := by
+  unfold dataTop topData topSpec
+  rw [bucketRows_groupSpec]
+  simp only [take_min_length]
+
+/-- an integral float count is its integer: `int(2.0) = 2` -/
+theorem pyInt_int (n : Int) : pyInt (n : Rat) = n := by
+  simp [pyInt, Rat.num_intCast, Rat.den_intCast]
+
+/-- … per category: for any row `r`, the rows of the result that are in `r`'s category are exactly the first `n` rows of the
+data that are in `r`'s category. -/
+theorem top_first_n_of_each_category (data : Table) (n : Nat) (fields : Option (List String)) (r : Row) :
+    (topSpec data n fields).filter (fun x => catKey fields x = catKey fields r) =
+      (data.filter (fun x => catKey fields x = catKey fields r)).take n := by
+  unfold topSpec groupSpec
+  rw [List.flatMap_map, List.filter_flatMap]
+  have hg : ∀ k', (List.filter (fun x => decide (catKey fields x = catKey fields r))
+      ((data.filter (fun x => decide (catKey fields x = k'))).take n)) =
+      if k' = catKey fields r then (data.filter (fun x => decide (catKey fields x = catKey fields r))).take n else [] := by
+    intro k'
+    by_cases hk : k' = catKey fields r
+    · subst hk
+      simp only [if_true]
+      refine List.filter_eq_self.mpr (fun x hx => ?_)
+      have := (List.mem_filter.mp (List.mem_of_mem_take hx)).2
+      simpa using this
+    · simp only [hk, if_false]
+      refine List.filter_eq_nil_iff.mpr (fun x hx hd => hk ?_)
+      have h1 := (List.mem_filter.mp (List.mem_of_mem_take hx)).2
+      have h1 : catKey fields x = k' := by simpa using h1
+      have h2 : catKey fields x = catKey fields r := by simpa using hd
+      rw [← h1, h2]
+  simp only [hg]
+  rw [flatMap_single _ (nodup_dedup _) (catKey fields r) (fun k => (data.filter (fun x => decide (catKey fields x = k))).take n)]
+  split
+  · rfl
+  · rename_i hk
+    have : data.filter (fun x => decide (catKey fields x = catKey fields r)) = [] := by
+      refine List.filter_eq_nil_iff.mpr (fun x hx hd => hk ((mem_dedup _ _).mpr ?_))
+      have : catKey fields x = catKey fields r := by simpa using hd
+      exact this ▸ List.mem_map_of_mem hx
+    simp [this]
+
+example : dataTop [[("a", .num 1), ("b", .num 1)], [("a", .str "1"), ("b", .num 2)], [("a", .num 1), ("b", .num 3)], [("a", .num 1), ("b", .num 4)],
+      [("b", .num 5)], [("a", .null), ("b", .num 6)], [("a", .str "1"), ("b", .num 7)]] 2 (some ["a"]) =
+    some [[("a", .num 1), ("b", .num 1)], [("a", .num 1), ("b", .num 3)], [("a", .str "1"), ("b", .num 2)], [("a", .str "1"), ("b", .num 7)],
+      [("b", .num 5)], [("a", .null), ("b", .num 6)]] ∧
+    dataTop [[("a", .num 1)]] (3 / 2) none = none ∧ dataTop [[("a", .num 1)]] 0 none = none := by decide +kernel
+
+/-! ## dataAggregate -/
+
+/-- **dataAggregate partitions the rows by category values and computes the functions over the non-null measure values**:
+for a valid aggregation whose output names are pairwise different and differ from the category fields, the two-pass mirror
+(`aggregate_data`: lists collected inside the aggregate rows, then replaced) equals the specification: one row per distinct
+category (first-appearance order) = the category fields of the category's first row followed by one cell per measure, the
+cell being null when the category has no non-null value and the function over the non-null values otherwise; the first
+failing cell (in row, then measure order) makes the whole call fail.  An invalid aggregation raises. -/
+theorem aggregate_spec (F : HostFloat) (data : Table) (agg : Aggregation) :
+    (agg.valid = true → agg.WF = true → aggregateData F data agg = aggregateSpec F data agg) ∧
+    (agg.valid = false → aggregateData F data agg = .raised) :=
+  ⟨aggregateData_eq_spec F data agg, fun h => by simp [aggregateData, h]⟩
+
+/-- the category fields of a new aggregate row hold the row's category values -/
+theorem aggNewRow_get (row : Row) : ∀ (cats : List String) (acc : Row) (c : String),
+    (c ∈ cats ∨ (rowHas c acc = true ∧ rowGet c acc = rowGet c row)) →
+    rowGet c (cats.foldl (fun r c => rowSet c (rowGet c row) r) acc) = rowGet c row
+  | [], acc, c, h => by
+    rcases h with h | h
+    · simp at h
+    · exact h.2
+  | c' :: cats, acc, c, h => by
+    refine aggNewRow_get row cats _ c ?_
+    by_cases e : c = c'
+    · subst e
+      refine .inr ⟨?_, rowGet_rowSet_same _ _ _⟩
+      rw [rowHas_iff, rowSet_keys]; split
+      · rename_i hh; exact (rowHas_iff _ _).mp hh
+      · simp
+    · rcases h with h | h
+      · rcases List.mem_cons.mp h with h | h
+        · exact absurd h e
+        · exact .inl h
+      · refine .inr ⟨?_, by rw [rowGet_rowSet_other _ _ _ _ e]; exact h.2⟩
+        rw [rowHas_iff, rowSet_keys]; split
+        · exact (rowHas_iff _ _).mp h.1
+        · exact List.mem_append_left _ ((rowHas_iff _ _).mp h.1)
+
+/-- … consequences of `aggregate_spec` for a successful call: there is exactly one output row per distinct category, in
+first-appearance order; the `i`-th output row starts with the category fields taken from the first row of the `i`-th category
+(each category field holds that row's value) and continues with the measure cells computed from that category's rows. -/
+theorem aggregate_partition (F : HostFloat) (data : Table) (agg : Aggregation) (hv : agg.valid = true) (hwf : agg.WF = true)
+    (out : Table) (h : aggregateData F data agg = .ok out) :
+    out.length = (dedup (data.map (catKey agg.categories))).length ∧
+    (∀ (i : Nat) (g : Option Key × List Row), (groupSpec (catKey agg.categories) data)[i]? = some g →
+      ∃ cells, out[i]? = some (aggNewRow agg.categories (g.2.headD []) ++ cells) ∧
+        Res.mapM (fun (m : Measure) => (aggCell F m.fn ((g.2.map (rowGet m.field)).filter (fun v => v ≠ .null))).map (fun v => (m.out, v)))
+          agg.measures = .ok cells ∧
+        cells.map (·.1) = agg.measures.map Measure.out) ∧
+    (∀ cats row c, agg.categories = some cats → c ∈ cats → rowGet c (aggNewRow agg.categories row) = rowGet c row) := by
+  rw [aggregateData_eq_spec F data agg hv hwf] at h
+  unfold aggregateSpec at h
+  refine ⟨?_, fun i g hg => ?_, fun cats row c hc hm => ?_⟩
+  · have := Res.mapM_length _ _ _ h
+    simpa [groupSpec] using this
+  · obtain ⟨b, hb, hf⟩ := Res.mapM_get _ _ _ h i g hg
+    cases hc : Res.mapM (fun (m : Measure) =>
+        (aggCell F m.fn ((g.2.map (rowGet m.field)).filter (fun v => v ≠ .null))).map (fun v => (m.out, v))) agg.measures with
+    | ok cells =>
+      rw [hc] at hf
+      simp only [Res.map_ok, Res.ok.injEq] at hf
+      refine ⟨cells, by rw [hb, hf], rfl, ?_⟩
+      -- the names of the cells are the output names, in measure order
+      have : ∀ (ms : List Measure) (cs : Row), Res.mapM (fun (m : Measure) =>
+          (aggCell F m.fn ((g.2.map (rowGet m.field)).filter (fun v => v ≠ .null))).map (fun v => (m.out, v))) ms = .ok cs →
+          cs.map (·.1) = ms.map Measure.out := by
+        intro ms
+        induction ms with
+        | nil => intro cs h; simp [Res.mapM] at h; subst h; rfl
+        | cons m ms ih =>
+          intro cs h
+          simp only [Res.mapM] at h
+          cases h1 : aggCell F m.fn ((g.2.map (rowGet m.field)).filter (fun v => v ≠ .null)) with
+          | ok v =>
+            cases h2 : Res.mapM (fun (m : Measure) =>
+                (aggCell F m.fn ((g.2.map (rowGet m.field)).filter (fun v => v ≠ .null))).map (fun v => (m.out, v))) ms with
+            | ok cs' =>
+              simp [h1, h2] at h; subst h
+              simp [ih cs' h2]
+            | raised => simp [h1, h2] at h
+            | unmodelled => simp [h1, h2] at h
+          | raised => simp [h1] at h
+          | unmodelled => simp [h1] at h
+      exact this _ _ hc
+    | raised => rw [hc] at hf; simp at hf
+    | unmodelled => rw [hc] at hf; simp at hf
+  · simp only [aggNewRow, hc, Option.getD_some]
+    exact aggNewRow_get row cats [] c (.inl hm)
+
+/-- **count** = the number of non-null measure values (null when there is none). -/
+theorem agg_count (F : HostFloat) (vs : List PValue) :
+    aggCell F .count vs = .ok (if vs = [] then .null else .num (vs.length : Rat)) := by
+  cases vs <;> simp [aggCell, aggApply]
+
+theorem numsOf_nums : ∀ qs : List Rat, numsOf (qs.map PValue.num) = some qs
+  | [] => rfl
+  | q :: qs => by
+    have := numsOf_nums qs
+    simp only [numsOf] at this ⊢
+    simp [List.mapM_cons, numOf, this]
+
+/-- **sum / average / stddev** over number values are the defining formulas on the exact rational values: the sum, the sum
+divided by the count, and the square root of the mean squared deviation from the mean — the latter two through the host's
+float conversion `F` (not modelled); when `F` is exact on the value at hand (the exactly-representable case) the cell *is*
+the rational mean, resp. the rational whose square is the variance.  `_partial` on float rounding: `F.round`/`F.sqrt` are
+assumptions about `statistics.mean`/`pstdev`, sampled by the correspondence. -/
+theorem agg_sum_average_stddev (F : HostFloat) (qs : List Rat) (hne : qs ≠ []) :
+    aggCell F .sum (qs.map .num) = .ok (.num (ratSum qs)) ∧
+    aggCell F .average (qs.map .num) = .ok (.num (F.round (ratSum qs / qs.length))) ∧
+    aggCell F .stddev (qs.map .num) = .ok (.num (F.sqrt (ratPVariance qs))) ∧
+    (F.round (ratMean qs) = ratMean qs → aggCell F .average (qs.map .num) = .ok (.num (ratMean qs))) ∧
+    (∀ s, 0 ≤ s → s * s = ratPVariance qs → F.sqrt (s * s) = s → aggCell F .stddev (qs.map .num) = .ok (.num s)) := by
+  have he : (qs.map PValue.num).isEmpty = false := by cases qs <;> simp at hne ⊢
+  refine ⟨?_, ?_, ?_, fun h => ?_, fun s _ hs hF => ?_⟩ <;>
+    simp only [aggCell, he, Bool.false_eq_true, if_false, aggApply, numsOf_nums, ratMean]
+  · rw [← ratMean, h]
+  · rw [← hs, hF]
+
+example : ratSum [1, 2, 3, 6] = 12 ∧ ratMean [1, 2, 3, 6] = 3 ∧ ratPVariance [1, 2, 3, 6] = 7 / 2 ∧ ratPVariance [1, 3] = 1 * 1 := by
+  decide +kernel
+
+/-- the three classes of scalars Python can order among themselves -/
+def Comparable (S : PValue → Prop) : Prop := ∀ a b, S a → S b → pyGt a b = .ok (decide (valueCompare a b > 0))
+
+theorem comparable_num : Comparable (fun v => ∃ q, v = .num q) := by
+  rintro _ _ ⟨x, rfl⟩ ⟨y, rfl⟩
+  have := (C11.num_cmp x y).2.2
+  simp only [pyGt, numOf]
+  by_cases h : y < x <;> simp [h] <;> simpa [this] using h
+
+theorem comparable_str : Comparable (fun v => ∃ s, v = .str s) := by
+  rintro _ _ ⟨x, rfl⟩ ⟨y, rfl⟩
+  simp [pyGt, numOf, valueCompare]
+
+theorem comparable_dt : Comparable (fun v => ∃ t, v = .dt t) := by
+  rintro _ _ ⟨x, rfl⟩ ⟨y, rfl⟩
+  simp only [pyGt, numOf, valueCompare, tri]
+  by_cases h : y < x
+  · have h1 : ¬ x < y := by omega
+    have h2 : ¬ x = y := by omega
+    simp [h, h1, h2]
+  · by_cases h1 : x < y
+    · simp [h, h1]
+    · have : x = y := by omega
+      simp [h, this]
+
+theorem pyMaxGo_pick {S : PValue → Prop} (hS : Comparable S) : ∀ (xs : List PValue) (cur : PValue), S cur → (∀ x ∈ xs, S x) →
+    pyMaxGo cur xs = .ok (C11.pick valueCompare cur xs)
+  | [], _, _, _ => rfl
+  | x :: xs, cur, hc, hx => by
+    have h1 := hS x cur (hx x (by simp)) hc
+    simp only [pyMaxGo, h1, Res.bind_ok, C11.pick, List.foldl_cons]
+    by_cases hg : valueCompare x cur > 0
+    · simpa [hg, C11.pick] using pyMaxGo_pick hS xs x (hx x (by simp)) (fun y hy => hx y (by simp [hy]))
+    · simpa [hg, C11.pick] using pyMaxGo_pick hS xs cur hc (fun y hy => hx y (by simp [hy]))
+
+theorem pyMinGo_pick {S : PValue → Prop} (hS : Comparable S) : ∀ (xs : List PValue) (cur : PValue), S cur → (∀ x ∈ xs, S x) →
+    pyMinGo cur xs = .ok (C11.pick (fun a b => valueCompare b a) cur xs)
+  | [], _, _, _ => rfl
+  | x :: xs, cur, hc, hx => by
+    have h1 := hS cur x hc (hx x (by simp))
+    simp only [pyMinGo, h1, Res.bind_ok, C11.pick, List.foldl_cons]
+    by_cases hg : valueCompare cur x > 0
+    · simpa [hg, C11.pick] using pyMinGo_pick hS xs x (hx x (by simp)) (fun y hy => hx y (by simp [hy]))
+    · simpa [hg, C11.pick] using pyMinGo_pick hS xs cur hc (fun y hy => hx y (by simp [hy]))
+
+/-- all numbers, all strings, or all datetimes -/
+def Homogeneous (vs : List PValue) : Prop :=
+  (∀ v ∈ vs, ∃ q, v = .num q) ∨ (∀ v ∈ vs, ∃ s, v = .str s) ∨ (∀ v ∈ vs, ∃ t, v = .dt t)
+
+/-- **min / max** over values of one orderable type (Python's `min`/`max`, not `value_compare`) agree with the
+`value_compare` order: the result is `mathMax`/`mathMin` of the values — by C11 `min_max_spec` the first greatest / first
+least value w.r.t. `value_compare`. -/
+theorem agg_min_max_homogeneous (F : HostFloat) (v : PValue) (rest : List PValue) (h : Homogeneous (v :: rest)) :
+    aggCell F .max (v :: rest) = .ok (mathMax (v :: rest)) ∧ aggCell F .min (v :: rest) = .ok (mathMin (v :: rest)) := by
+  have hmax : mathMax (v :: rest) = C11.pick valueCompare v rest := by
+    simp only [mathMax, List.foldl_cons, maxStep, if_true]; exact C11.foldl_maxStep v rest
+  have hmin : mathMin (v :: rest) = C11.pick (fun a b => valueCompare b a) v rest := by
+    simp only [mathMin, List.foldl_cons, minStep, if_true]; exact C11.foldl_minStep v rest
+  simp only [aggCell, List.isEmpty_cons, Bool.false_eq_true, if_false, aggApply, hmax, hmin]
+  rcases h with h | h | h
+  · exact ⟨pyMaxGo_pick comparable_num rest v (h v (by simp)) (fun x hx => h x (by simp [hx])),
+      pyMinGo_pick comparable_num rest v (h v (by simp)) (fun x hx => h x (by simp [hx]))⟩
+  · exact ⟨pyMaxGo_pick comparable_str rest v (h v (by simp)) (fun x hx => h x (by simp [hx])),
+      pyMinGo_pick comparable_str rest v (h v (by simp)) (fun x hx => h x (by simp [hx]))⟩
+  · exact ⟨pyMaxGo_pick comparable_dt rest v (h v (by simp)) (fun x hx => h x (by simp [hx])),
+      pyMinGo_pick comparable_dt rest v (h v (by simp)) (fun x hx => h x (by simp [hx]))⟩
+
+example : aggCell ⟨id, id⟩ .max [.num 1, .num 3, .num 2, .num 3] = .ok (.num 3) ∧ aggCell ⟨id, id⟩ .min [.str "b", .str "a"] = .ok (.str "a") ∧
+    aggCell ⟨id, id⟩ .min [] = .ok .null ∧ Homogeneous [.num 1, .num 3] := by
+  refine ⟨by decide +kernel, by decide +kernel, by decide +kernel, .inl ?_⟩
+  intro v hv; simp at hv; rcases hv with rfl | rfl <;> exact ⟨_, rfl⟩
+
+/-- the class of a scalar for Python's ordering: numbers and booleans together, strings, datetimes -/
+def cmpClass : PValue → Nat
+  | .num _ => 0
+  | .bool _ => 0
+  | .str _ => 1
+  | .dt _ => 2
+  | _ => 3
+
+theorem pyGt_class (a b : PValue) (ha : isScalar a = true ∧ a ≠ .null) (hb : isScalar b = true ∧ b ≠ .null) :
+    (cmpClass a = cmpClass b → ∃ g, pyGt a b = .ok g) ∧ (cmpClass a ≠ cmpClass b → pyGt a b = .raised) := by
+  cases a <;> cases b <;> simp [isScalar] at ha hb <;> simp [pyGt, numOf, cmpClass, isScalar]
+
+theorem pyMaxGo_mixed (v : PValue) : ∀ (rest : List PValue) (cur : PValue), (isScalar cur = true ∧ cur ≠ .null) → cmpClass cur = cmpClass v →
+    (∀ w ∈ rest, isScalar w = true ∧ w ≠ .null) → (∃ w ∈ rest, cmpClass w ≠ cmpClass v) →
+    pyMaxGo cur rest = .raised ∧ pyMinGo cur rest = .raised
+  | [], _, _, _, _, h => by simp at h
+  | x :: xs, cur, hc, hcv, hs, hm => by
+    have hx := hs x (by simp)
+    by_cases hcl : cmpClass x = cmpClass cur
+    · obtain ⟨g, hg⟩ := (pyGt_class x cur hx hc).1 hcl
+      obtain ⟨g', hg'⟩ := (pyGt_class cur x hc hx).1 hcl.symm
+      have hrest : ∃ w ∈ xs, cmpClass w ≠ cmpClass v := by
+        obtain ⟨w, hw, hne⟩ := hm
+        rcases List.mem_cons.mp hw with e | e
+        · subst e; exact absurd (hcl.trans hcv) hne
+        · exact ⟨w, e, hne⟩
+      have hs' : ∀ w ∈ xs, isScalar w = true ∧ w ≠ .null := fun w hw => hs w (by simp [hw])
+      simp only [pyMaxGo, pyMinGo, hg, hg', Res.bind_ok]
+      constructor
+      · cases g
+        · exact (pyMaxGo_mixed v xs cur hc hcv hs' hrest).1
+        · exact (pyMaxGo_mixed v xs x hx (hcl.trans hcv) hs' hrest).1
+      · cases g'
+        · exact (pyMaxGo_mixed v xs cur hc hcv hs' hrest).2
+        · exact (pyMaxGo_mixed v xs x hx (hcl.trans hcv) hs' hrest).2
+    · have h1 := (pyGt_class x cur hx hc).2 hcl
+      have h2 := (pyGt_class cur x hc hx).2 (fun e => hcl e.symm)
+      simp [pyMaxGo, pyMinGo, h1, h2]
+
+/-- **mixed types fail**: `sum`, `average` and `stddev` raise as soon as one non-null value is not a number (or boolean, which
+Python counts as 0/1); `min` and `max` raise when the non-null values are scalars of two different orderable classes
+(number/boolean, string, datetime).  The library wrapper turns the raised exception into a null result for the whole call. -/
+theorem agg_mixed_types_fail (F : HostFloat) (v : PValue) (rest : List PValue) :
+    ((∃ w ∈ v :: rest, numOf w = none) →
+      aggCell F .sum (v :: rest) = .raised ∧ aggCell F .average (v :: rest) = .raised ∧ aggCell F .stddev (v :: rest) = .raised) ∧
+    ((∀ w ∈ v :: rest, isScalar w = true ∧ w ≠ .null) → (∃ w ∈ rest, cmpClass w ≠ cmpClass v) →
+      aggCell F .max (v :: rest) = .raised ∧ aggCell F .min (v :: rest) = .raised) := by
+  constructor
+  · rintro ⟨w, hw, hn⟩
+    have : numsOf (v :: rest) = none := by
+      have key : ∀ l : List PValue, w ∈ l → numsOf l = none := by
+        intro l
+        induction l with
+        | nil => intro h; simp at h
+        | cons x xs ih =>
+          intro h
+          simp only [numsOf, List.mapM_cons] at ih ⊢
+          rcases List.mem_cons.mp h with e | e
+          · subst e; simp [hn]
+          · cases numOf x <;> simp [ih e]
+      exact key _ hw
+    simp [aggCell, aggApply, this]
+  · intro hs hm
+    have := pyMaxGo_mixed v rest v (hs v (by simp)) rfl (fun w hw => hs w (by simp [hw])) hm
+    simp [aggCell, aggApply, this.1, this.2]
+
+example : aggregateData ⟨id, id⟩
+    [[("k", .str "a.0,"), ("m", .num 1)], [("k", .str "a,"), ("m", .num 5)], [("k", .str "a.0,"), ("m", .null)], [("k", .str "a.0,"), ("m", .num 3)],
+     [("m", .num 7)], [("k", .null), ("m", .str "x")]]
+    { categories := some ["k"], measures := [⟨"m", .count, some "n"⟩, ⟨"m", .sum, none⟩, ⟨"z", .max, none⟩] } =
+    .raised ∧
+  aggregateData ⟨id, id⟩
+    [[("k", .str "a.0,"), ("m", .num 1)], [("k", .str "a,"), ("m", .num 5)], [("k", .str "a.0,"), ("m", .null)], [("k", .str "a.0,"), ("m", .num 3)],
+     [("m", .num 7)], [("k", .null), ("m", .null)]]
+    { categories := some ["k"], measures := [⟨"m", .count, some "n"⟩, ⟨"m", .average, none⟩, ⟨"z", .max, none⟩] } =
+    .ok [[("k", .str "a.0,"), ("n", .num 2), ("m", .num 2), ("z", .null)], [("k", .str "a,"), ("n", .num 1), ("m", .num 5), ("z", .null)],
+         [("k", .null), ("n", .num 1), ("m", .num 7), ("z", .null)]] := by decide +kernel
+
+/-! ## dataJoin -/
+
+/-- **The renaming of right fields**: `right_names` maps exactly the right field names, in order; a right field keeps its name
+unless a left field has it, and otherwise becomes `name2`, `name3`, … — the first of these that is neither a left nor a right
+field name; the search never fails (pigeonhole: the fuel of the mirror suffices). -/
+theorem right_names_spec (leftData rightData : Table) :
+    ∃ names, rightNames leftData rightData = some names ∧ names.map (·.1) = fieldNames rightData ∧
+      ∀ p ∈ names, IsJoinedName (fieldNames leftData) (fieldNames rightData) p.1 p.2 := by
+  simpa [rightNames] using rightNamesLoop_ok (fieldNames leftData) (fieldNames rightData) (fieldNames rightData) [] (by simp) (by simp)
+
+/-- **dataJoin pairs each left row with exactly the right rows whose key is equal**, left rows in order, partners in right
+order; each pair is the left row followed by the right fields under their joined names.  A left row without partner is kept
+iff `isLeftJoin` is **false** — this is what data.py:218 does and `test_join_data_left` pins (the doc comment of the flag
+says the opposite). -/
+theorem join_spec (kl kr : Row → PValue) (leftData rightData : Table) (isLeftJoin : Bool) :
+    ∃ names, rightNames leftData rightData = some names ∧
+      joinData (fun r => some (kl r)) (fun r => some (kr r)) leftData rightData isLeftJoin =
+        some (joinSpec kl kr (mergeRow (renameOf names)) (!isLeftJoin) leftData rightData) := by
+  obtain ⟨names, hn, hk, _⟩ := right_names_spec leftData rightData
+  refine ⟨names, hn, ?_⟩
+  have hnames : ∀ r ∈ rightData, ∀ p ∈ r, p.1 ∈ names.map (·.1) := fun r hr p hp =>
+    hk ▸ (mem_fieldNames p.1 rightData).mpr ⟨r, hr, List.mem_map_of_mem hp⟩
+  have hb : bucketRowsM (fun r => some (kr r)) rightData [] = some (groupSpec (fun r => bucketKey (kr r)) rightData) := by
+    rw [bucketRowsM_total, ← bucketRows_groupSpec]; rfl
+  simp only [joinData, hn, hb]
+  rw [joinLoop_total kl kr names rightData isLeftJoin hnames leftData [], joinSpec_eq]
+  simp
+
+/-- … where "key is equal" means: equal values of the same type (for data values). -/
+theorem join_pairs_equal_values (kl kr : Row → PValue) (merge : Row → Row → Row) (keep : Bool) (leftData rightData : Table)
+    (hl : ∀ l ∈ leftData, IsData.noOpaque (kl l) = true) (hr : ∀ r ∈ rightData, IsData.noOpaque (kr r) = true) :
+    joinSpec kl kr merge keep leftData rightData =
+      leftData.flatMap (fun l =>
+        let partners := rightData.filter (fun r => valueCompare (kr r) (kl l) = 0)
+        if partners.isEmpty then (if keep then [l] else []) else partners.map (merge l)) := by
+  unfold joinSpec
+  refine List.flatMap_congr (fun l hl' => ?_)
+  have : rightData.filter (fun r => decide (bucketKey (kr r) = bucketKey (kl l))) = rightData.filter (fun r => decide (valueCompare (kr r) (kl l) = 0)) := by
+    refine List.filter_congr (fun r hr' => ?_)
+    have := faithful (kr r) (hr r hr') (kl l) (hl l hl')
+    simp [this]
+  simp only [this]
+
+/-- **dataJoin never overwrites a left field**: the joined row *extends* the left row — every left field keeps its position
+and value — and no joined name of a right field is a left field name of any row. -/
+theorem join_never_overwrites_left (leftData rightData : Table) (names : List (String × String))
+    (hn : rightNames leftData rightData = some names) (l r : Row) (hl : l ∈ leftData) (hr : r ∈ rightData) :
+    (∃ ext, mergeRow (renameOf names) l r = l ++ ext) ∧
+    (∀ k ∈ l.map (·.1), rowGet k (mergeRow (renameOf names) l r) = rowGet k l) ∧
+    (∀ p ∈ names, p.2 ∉ fieldNames leftData) ∧ joinRow names l r = some (mergeRow (renameOf names) l r) := by
+  obtain ⟨names', hn', hk, hj⟩ := right_names_spec leftData rightData
+  rw [hn] at hn'; cases hn'
+  have hnot : ∀ p ∈ names, p.2 ∉ fieldNames leftData := fun p hp => (hj p hp).not_left
+  have hfield : ∀ p ∈ r, p.1 ∈ names.map (·.1) := fun p hp => hk ▸ (mem_fieldNames p.1 rightData).mpr ⟨r, hr, List.mem_map_of_mem hp⟩
+  have hren : ∀ p ∈ r, renameOf names p.1 ∉ l.map (·.1) := by
+    intro p hp hin
+    obtain ⟨u, hu⟩ := bucketLookup_some_of_mem p.1 names (hfield p hp)
+    have hmem := bucketLookup_mem p.1 u names hu
+    have : renameOf names p.1 = u := by simp [renameOf, hu]
+    rw [this] at hin
+    exact hnot (p.1, u) hmem ((mem_fieldNames u leftData).mpr ⟨l, hl, hin⟩)
+  obtain ⟨ext, hext⟩ := mergeRow_prefix (renameOf names) l r [] hren
+  have hext' : mergeRow (renameOf names) l r = l ++ ext := by simpa [mergeRow] using hext
+  exact ⟨⟨ext, hext'⟩, fun k hk' => by rw [hext', rowGet_append_left k l ext hk'], hnot, joinRow_eq names r l hfield⟩
+
+/-- an evaluation that raises on some right or left row makes the whole call raise. -/
+theorem join_raises (evalL evalR : Row → Option PValue) (leftData rightData : Table) (isLeftJoin : Bool)
+    (h : (∃ r ∈ rightData, evalR r = none) ∨ (∃ l ∈ leftData, evalL l = none)) :
+    joinData evalL evalR leftData rightData isLeftJoin = none := by
+  obtain ⟨names, hn, _⟩ := right_names_spec leftData rightData
+  simp only [joinData, hn]
+  rcases h with h | h
+  · rw [bucketRowsM_none evalR rightData [] h]
+  · cases bucketRowsM evalR rightData [] with
+    | none => rfl
+    | some bs => exact joinLoop_none evalL names bs isLeftJoin leftData [] h
+
+/-- non-vacuity: colliding names on both sides (`a`, `a2`, `a3`), duplicate keys, null keys, `1` vs `'1'`, both flag values -/
+example :
+    rightNames [[("a", .num 1), ("a2", .str "x")], [("a", .null), ("b", .num 0)]] [[("a", .num 1), ("a2", .num 5), ("a3", .bool true)], [("b", .null)]] =
+      some [("a", "a4"), ("a2", "a22"), ("a3", "a3"), ("b", "b2")] ∧
+    joinData (fun r => some (rowGet "a" r)) (fun r => some (rowGet "a" r))
+      [[("a", .num 1), ("a2", .str "x")], [("a", .null), ("b", .num 0)], [("a", .str "1")], [("a", .num 1)]]
+      [[("a", .num 1), ("a2", .num 5), ("a3", .bool true)], [("a", .num 1), ("b", .null)], [("a", .num 2)]] false =
+      some [[("a", .num 1), ("a2", .str "x"), ("a4", .num 1), ("a22", .num 5), ("a3", .bool true)],
+            [("a", .num 1), ("a2", .str "x"), ("a4", .num 1), ("b2", .null)],
+            [("a", .null), ("b", .num 0)], [("a", .str "1")],
+            [("a", .num 1), ("a4", .num 1), ("a22", .num 5), ("a3", .bool true)], [("a", .num 1), ("a4", .num 1), ("b2", .null)]] ∧
+    joinData (fun r => some (rowGet "a" r)) (fun r => some (rowGet "a" r))
+      [[("a", .num 1)], [("a", .null)]] [[("a", .num 1), ("c", .num 9)]] true = some [[("a", .num 1), ("a2", .num 1), ("c", .num 9)]] := by
+  decide +kernel
+
+/-- observation (not part of the property): the renaming need not be injective — with enough left fields two right fields
+can be sent to the same joined name (`a` → `a12` because `a2 … a11` are taken, `a1` → `a12`); the later one then overwrites
+the earlier *right* field.  Left fields are never affected. -/
+example : rightNames [[("a", .null), ("a1", .null), ("a2", .null), ("a3", .null), ("a4", .null), ("a5", .null), ("a6", .null), ("a7", .null),
+      ("a8", .null), ("a9", .null), ("a10", .null), ("a11", .null)]] [[("a", .num 1), ("a1", .num 2)]] = some [("a", "a12"), ("a1", "a12")] := by
+  decide +kernel
+
+/-! ## CSV typing -/
+
+/-- **One CSV column**: the column gets the type of its first cell that is neither empty nor `null` (string if there is
+none), and if every cell converts under that type the parse returns the converted cells (if one does not, the parse raises a
+field error naming it: `convertCell`). -/
+theorem validate_column (offU : Int → Int) (f : String) (cells : List String) (v : String → PValue)
+    (hconv : ∀ c ∈ cells, convertCell true offU f (colType offU cells) (.str c) = .ok (v c)) :
+    validateData true offU (cells.map (fun c => [(f, PValue.str c)])) = .ok (cells.map (fun c => [(f, v c)])) :=
+  validate_column_eq offU f cells v hconv
+
+/-- the type of a column all of whose determinable cells have type `t` -/
+theorem colType_of_all (offU : Int → Int) (t : FieldType) : ∀ cells : List String,
+    (∀ c ∈ cells, detectType true offU (.str c) = some none ∨ detectType true offU (.str c) = some (some t)) →
+    ((∃ c ∈ cells, detectType true offU (.str c) = some (some t)) ∨ t = .string) → colType offU cells = t
+  | [], _, h => by
+    rcases h with ⟨c, hc, _⟩ | h
+    · simp at hc
+    · simp [colType, firstType, h]
+  | c :: cells, hall, h => by
+    rcases hall c (by simp) with hc | hc
+    · have ih := colType_of_all offU t cells (fun c' hc' => hall c' (by simp [hc'])) (by
+        rcases h with ⟨c', hc', hd⟩ | h
+        · rcases List.mem_cons.mp hc' with e | e
+          · subst e; rw [hc] at hd; cases hd
+          · exact .inl ⟨c', e, hd⟩
+        · exact .inr h)
+      simpa [colType, firstType, hc] using ih
+    · simp [colType, firstType, hc]
+
+/-- typed values of a column, with their model values -/
+inductive ColKind where
+  | number | boolean | datetime | string
+
+/-- the side conditions of the round trip, per column kind; `pv` is the value the cell must parse to -/
+def CellOK (kind : ColKind) (offL offU : Int → Int) (nullText : String) (x : CsvVal) (pv : PValue) : Prop :=
+  match x with
+  | .null => pv = .null
+  | .bool b => kind = .boolean ∧ pv = .bool b
+  | .num (.int z) => kind = .number ∧ pv = .num z ∧ -NumText.overflowBound < (z : Rat) ∧ (z : Rat) < NumText.overflowBound ∧
+      parseDatetime offU (csvText nullText offL x) = none
+  | .num (.float r) => kind = .number ∧ ∃ q, pv = .num q ∧ NumText.IsRepr r ∧ NumText.decVal r = some q ∧
+      -NumText.overflowBound < q ∧ q < NumText.overflowBound ∧ parseDatetime offU (csvText nullText offL x) = none
+  | .dt t => kind = .datetime ∧ pv = .dt (Datetime.toLocalMs t * 1000) ∧ t.Valid ∧
+      offL (Datetime.toLocalMs t) % 60 = 0 ∧ -86400 < offL (Datetime.toLocalMs t) ∧ offL (Datetime.toLocalMs t) < 86400 ∧
+      offU (Datetime.toLocalMs t - offL (Datetime.toLocalMs t) * 1000) = offL (Datetime.toLocalMs t) ∧
+      (Datetime.ofLocalMs (Datetime.toLocalMs t - offL (Datetime.toLocalMs t) * 1000)).isSome = true
+  | .str s => kind = .string ∧ pv = .str s ∧ s ≠ "null"
+
+theorem parseNumber_facts : parseNumber "" = none ∧ parseNumber "null" = none ∧ parseNumber "true" = none ∧ parseNumber "false" = none := by
+  decide +kernel
+
+/-- type detection and conversion of one canonical cell text -/
+theorem cell_roundtrip (kind : ColKind) (offL offU : Int → Int) (nullText : String) (hnull : nullText = "" ∨ nullText = "null")
+    (f : String) (x : CsvVal) (pv : PValue) (h : CellOK kind offL offU nullText x pv) :
+    let c := csvText nullText offL x
+    let t : FieldType := match kind with | .number => .number | .boolean => .boolean | .datetime => .datetime | .string => .string
+    (x = .null → detectType true offU (.str c) = some none) ∧
+    (x ≠ .null → kind ≠ .string → detectType true offU (.str c) = some (some t)) ∧
+    ((kind = .string → nullText = "null") → convertCell true offU f t (.str c) = .ok pv) := by
+  intro c t
+  obtain ⟨p1, p2, p3, p4⟩ := parseNumber_facts
+  cases x with
+  | null =>
+    simp only [CellOK] at h
+    subst h
+    refine ⟨fun _ => ?_, fun hx => absurd rfl hx, fun hs => ?_⟩
+    · rcases hnull with e | e <;> simp [c, csvText, e, detectType]
+    · cases kind
+      · rcases hnull with e | e <;> simp [c, t, csvText, e, convertCell]
+      · rcases hnull with e | e <;> simp [c, t, csvText, e, convertCell]
+      · rcases hnull with e | e <;> simp [c, t, csvText, e, convertCell]
+      · simp [c, t, csvText, hs rfl, convertCell]
+  | bool b =>
+    simp only [CellOK] at h
+    obtain ⟨hk, hp⟩ := h
+    subst hk; subst hp
+    refine ⟨fun hx => by cases hx, fun _ _ => ?_, fun _ => ?_⟩
+    · cases b <;> simp [c, t, csvText, detectType, parseDatetime_true, parseDatetime_false]
+    · cases b <;> simp [c, t, csvText, convertCell]
+  | num n =>
+    have key : ∀ q, kind = .number → pv = .num q → parseNumber c = some (.num q) → parseDatetime offU c = none →
+        (detectType true offU (.str c) = some (some .number)) ∧ convertCell true offU f .number (.str c) = .ok pv := by
+      intro q _ hp hn hd
+      have h1 : c ≠ "" := fun e => by rw [e, p1] at hn; cases hn
+      have h2 : c ≠ "null" := fun e => by rw [e, p2] at hn; cases hn
+      have h3 : c ≠ "true" := fun e => by rw [e, p3] at hn; cases hn
+      have h4 : c ≠ "false" := fun e => by rw [e, p4] at hn; cases hn
+      subst hp
+      constructor
+      · simp [detectType, h1, h2, h3, h4, hd, hn]
+      · simp [convertCell, h1, h2, hn]
+    cases n with
+    | int z =>
+      simp only [CellOK] at h
+      obtain ⟨hk, hp, hlo, hhi, hd⟩ := h
+      have := key z hk hp (by simpa [c, csvText] using parseNumber_int z hlo hhi) hd
+      subst hk
+      exact ⟨fun hx => by cases hx, fun _ _ => this.1, fun _ => this.2⟩
+    | float r =>
+      simp only [CellOK] at h
+      obtain ⟨hk, q, hp, hr, hq, hlo, hhi, hd⟩ := h
+      have := key q hk hp (by simpa [c, csvText] using parseNumber_float r q hr hq hlo hhi) hd
+      subst hk
+      exact ⟨fun hx => by cases hx, fun _ _ => this.1, fun _ => this.2⟩
+  | dt d =>
+    simp only [CellOK] at h
+    obtain ⟨hk, hp, hv, hmin, hlo, hhi, hex, hutc⟩ := h
+    subst hk; subst hp
+    have hparse : parseDatetime offU c = some (.dt (Datetime.toLocalMs d * 1000)) := by
+      simp [c, csvText, parseDatetime, String.toList_ofList, C16.iso_roundtrip_partial offL offU d hv hmin hlo hhi hex hutc]
+    have h1 : c ≠ "" := fun e => by rw [e, parseDatetime_empty] at hparse; cases hparse
+    have h2 : c ≠ "null" := fun e => by rw [e, parseDatetime_null] at hparse; cases hparse
+    refine ⟨fun hx => by cases hx, fun _ _ => ?_, fun _ => ?_⟩
+    · simp [t, detectType, h1, h2, hparse]
+    · simp [t, convertCell, h1, h2, hparse]
+  | str s =>
+    simp only [CellOK] at h
+    obtain ⟨hk, hp, hs⟩ := h
+    subst hk; subst hp
+    refine ⟨fun hx => by cases hx, fun _ hne => absurd rfl hne, fun _ => ?_⟩
+    simp [c, t, csvText, convertCell, hs]
+
+/-- **CSV typing round trip (`_partial`)**: a column holding the canonical texts of values of ONE type — numbers
+(`value_string`: `str(int)`, or `repr(float)` without a trailing `.0`), booleans (`true`/`false`), datetimes (the ISO text
+`datetimeISOFormat` produces) or strings — with nulls written as `nullText` (`""` or `"null"`), parses back to exactly those
+values.  Side conditions (all needed; the correspondence exhibits each failure when dropped):
+* per cell `CellOK`: an `int` lies inside the double range; a `float` is given by its `repr` text under C13's assumptions
+  A1/A2 (`IsRepr`, the text denotes `q`, no overflow); a number text is not an ISO datetime (always true of `value_string`
+  output — stated as a hypothesis, not proved here); a datetime satisfies the hypotheses of C16 `iso_roundtrip_partial` (valid
+  fields, whole-minute offset, existing local time, UTC instant in range); a string value is not `"null"`;
+* a typed (non-string) column written with `nullText = ""` contains at least one non-null value (a column of empty cells
+  only is a column of empty strings);
+* a string column writes nulls as `"null"`, and its first cell that is neither empty nor `"null"` is not parseable as a
+  datetime, boolean or number (`hstr`: the column's detected type is string).
+What is missing for the unqualified statement: `csv.DictReader` splitting/quoting is trusted base (the theorem starts from
+the cells), several columns are typed independently (correspondence only), `repr`/`float()`/`astimezone()` are assumptions. -/
+theorem csv_typing_roundtrip_partial (kind : ColKind) (offL offU : Int → Int) (nullText : String) (hnull : nullText = "" ∨ nullText = "null")
+    (f : String) (xs : List CsvVal) (pv : CsvVal → PValue)
+    (hcells : ∀ x ∈ xs, CellOK kind offL offU nullText x (pv x))
+    (hsome : kind = .string ∨ nullText = "null" ∨ ∃ x ∈ xs, x ≠ .null)
+    (hstr : kind = .string → nullText = "null" ∧ colType offU (xs.map (csvText nullText offL)) = .string) :
+    validateData true offU (xs.map (fun x => [(f, PValue.str (csvText nullText offL x))])) = .ok (xs.map (fun x => [(f, pv x)])) := by
+  let t : FieldType := match kind with | .number => .number | .boolean => .boolean | .datetime => .datetime | .string => .string
+  let cells := xs.map (csvText nullText offL)
+  let v : String → PValue := fun c => match convertCell true offU f (colType offU cells) (.str c) with | .ok w => w | .error _ => .null
+  -- the column type
+  have hall : ∀ x ∈ xs, x ≠ .null ∨ nullText = "null" ∨ kind = .string → True := fun _ _ _ => trivial
+  have hconvT : ∀ x ∈ xs, (kind = .string → nullText = "null") → convertCell true offU f t (.str (csvText nullText offL x)) = .ok (pv x) :=
+    fun x hx => (cell_roundtrip kind offL offU nullText hnull f x (pv x) (hcells x hx)).2.2
+  have hct : (∀ x ∈ xs, convertCell true offU f (colType offU cells) (.str (csvText nullText offL x)) = .ok (pv x)) := by
+    by_cases hk : kind = .string
+    · have ⟨hn, hc⟩ := hstr hk
+      intro x hx
+      have := hconvT x hx (fun _ => hn)
+      rw [show colType offU cells = .string from hc]
+      simpa [t, hk] using this
+    · -- typed column: all determinable cells have type t
+      have hdet : ∀ c ∈ cells, detectType true offU (.str c) = some none ∨ detectType true offU (.str c) = some (some t) := by
+        intro c hc
+        obtain ⟨x, hx, rfl⟩ := List.mem_map.mp hc
+        have := cell_roundtrip kind offL offU nullText hnull f x (pv x) (hcells x hx)
+        by_cases hxn : x = .null
+        · exact .inl (this.1 hxn)
+        · exact .inr (this.2.1 hxn hk)
+      by_cases hex : ∃ x ∈ xs, x ≠ CsvVal.null
+      · obtain ⟨x0, hx0, hne⟩ := hex
+        have h0 := (cell_roundtrip kind offL offU nullText hnull f x0 (pv x0) (hcells x0 hx0)).2.1 hne hk
+        have hc : colType offU cells = t := colType_of_all offU t cells hdet (.inl ⟨_, List.mem_map_of_mem hx0, h0⟩)
+        intro x hx
+        rw [hc]; exact hconvT x hx (fun e => absurd e hk)
+      · -- every value is null: the texts are all `nullText`, which must be "null"
+        have hnt : nullText = "null" := by
+          rcases hsome with h | h | h
+          · exact absurd h hk
+          · exact h
+          · exact absurd h hex
+        have hallnull : ∀ x ∈ xs, x = CsvVal.null := fun x hx => Classical.byContradiction (fun hne => hex ⟨x, hx, hne⟩)
+        have hc : colType offU cells = .string := by
+          refine colType_of_all offU .string cells (fun c hc => ?_) (.inr rfl)
+          obtain ⟨x, hx, rfl⟩ := List.mem_map.mp hc
+          exact .inl ((cell_roundtrip kind offL offU nullText hnull f x (pv x) (hcells x hx)).1 (hallnull x hx))
+        intro x hx
+        have hxn := hallnull x hx
+        have hp : pv x = .null := by have := hcells x hx; rw [hxn] at this; simpa [CellOK] using this
+        rw [hc, hxn, ← hxn, hp, hxn]
+        simp [csvText, hnt, convertCell]
+  have hmain := validate_column_eq offU f cells v (fun c hc => by
+    obtain ⟨x, hx, rfl⟩ := List.mem_map.mp hc
+    simp only [v, hct x hx])
+  have e1 : cells.map (fun c => [(f, PValue.str c)]) = xs.map (fun x => [(f, PValue.str (csvText nullText offL x))]) := by
+    simp [cells, Function.comp_def]
+  have e2 : cells.map (fun c => [(f, v c)]) = xs.map (fun x => [(f, pv x)]) := by
+    simp only [cells, List.map_map, Function.comp_def]
+    refine List.map_congr_left (fun x hx => ?_)
+    simp only [v, hct x hx]
+  rw [e1, e2] at hmain
+  exact hmain
+
+/-- non-vacuity of the round trip: a number column (ints and a float repr, nulls as empty cells) and a datetime column in UTC -/
+example : validateData true (fun _ => 0)
+    ([CsvVal.num (.int 17), .null, .num (.float "1.5e-07"), .num (.int (-2))].map (fun x => [("n", PValue.str (csvText "" (fun _ => 0) x))])) =
+      .ok [[("n", .num 17)], [("n", .null)], [("n", .num (3 / 20000000))], [("n", .num (-2))]] ∧
+    validateData true (fun _ => 0)
+    ([CsvVal.dt ⟨2024, 2, 29, 1, 2, 3, 45⟩, .null].map (fun x => [("d", PValue.str (csvText "null" (fun _ => 0) x))])) =
+      .ok [[("d", .dt (Datetime.toLocalMs ⟨2024, 2, 29, 1, 2, 3, 45⟩ * 1000))], [("d", .null)]] ∧
+    csvText "" (fun _ => 0) (.dt ⟨2024, 2, 29, 1, 2, 3, 45⟩) = "2024-02-29T01:02:03.045+00:00" := by
+  refine ⟨?_, ?_, by decide +kernel⟩
+  · have h : ∀ s, parseDatetime (fun _ => 0) s = (Datetime.isoParse (fun _ => 0) s.toList).map (fun t => .dt (Datetime.toLocalMs t * 1000)) := fun _ => rfl
+    have a1 : parseDatetime (fun _ => 0) "17" = none := by decide +kernel
+    have a2 : parseDatetime (fun _ => 0) "1.5e-07" = none := by decide +kernel
+    have a3 : parseDatetime (fun _ => 0) "-2" = none := by decide +kernel
+    have b1 : parseNumber "17" = some (.num 17) := by decide +kernel
+    have b2 : parseNumber "1.5e-07" = some (.num (3 / 20000000)) := by decide +kernel
+    have b3 : parseNumber "-2" = some (.num (-2)) := by decide +kernel
+    have c1 : csvText "" (fun _ => 0) (.num (.int 17)) = "17" := by decide +kernel
+    have c2 : csvText "" (fun _ => 0) (.num (.float "1.5e-07")) = "1.5e-07" := by decide +kernel
+    have c3 : csvText "" (fun _ => 0) (.num (.int (-2))) = "-2" := by decide +kernel
+    simp [validateData, detectTypes, detectCell, detectType, typesGet, typesSet, bucketLookup, convertRows, convertRow, convertCell,
+      a1, a2, a3, b1, b2, b3, c1, c2, c3, csvText, Except.map]
+  · have c1 : csvText "null" (fun _ => 0) (.dt ⟨2024, 2, 29, 1, 2, 3, 45⟩) = "2024-02-29T01:02:03.045+00:00" := by decide +kernel
+    have a1 : parseDatetime (fun _ => 0) "2024-02-29T01:02:03.045+00:00" = some (.dt (Datetime.toLocalMs ⟨2024, 2, 29, 1, 2, 3, 45⟩ * 1000)) := by
+      decide +kernel
+    simp [validateData, detectTypes, detectCell, detectType, typesGet, typesSet, bucketLookup, convertRows, convertRow, convertCell,
+      a1, c1, csvText, Except.map]
+
+/-- **Date-like text is kept as a string**: `2024-02-30`, `2024-13-01` and `2024-01-01T25:00:00Z` are not datetimes in any
+zone (invalid calendar values parse to null, they do not raise), so a cell holding one is typed string and the parse goes
+on: `dataParseCSV('a,b', '2024-02-30,1')` is `[{a: '2024-02-30', b: 1}]` (finding F10: it used to abort). -/
+theorem datelike_kept_string (offU : Int → Int) :
+    parseDatetime offU "2024-02-30" = none ∧ parseDatetime offU "2024-13-01" = none ∧ parseDatetime offU "2024-01-01T25:00:00Z" = none ∧
+    detectType true offU (.str "2024-02-30") = some (some .string) ∧
+    validateData true offU [[("a", .str "2024-02-30"), ("b", .str "1")]] = .ok [[("a", .str "2024-02-30"), ("b", .num 1)]] ∧
+    validateData true offU [[("a", .str "2024-02-29")], [("a", .str "2024-02-30")]] matches .error ⟨"a", .datetime, .str "2024-02-30"⟩ := by
+  have h1 : parseDatetime offU "2024-02-30" = none := rfl
+  have h1' : parseDatetime offU "2024-13-01" = none := rfl
+  have h1'' : parseDatetime offU "2024-01-01T25:00:00Z" = none := rfl
+  have h2 : parseNumber "2024-02-30" = none := by decide +kernel
+  have h3 : parseDatetime offU "1" = none := rfl
+  have h4 : parseNumber "1" = some (.num 1) := by decide +kernel
+  have h5 : (parseDatetime offU "2024-02-29").isSome = true := rfl
+  refine ⟨h1, h1', h1'', ?_, ?_, ?_⟩
+  · simp [detectType, h1, h2]
+  · simp [validateData, detectTypes, detectCell, detectType, typesGet, typesSet, bucketLookup, convertRows, convertRow, convertCell,
+      h1, h2, h3, h4, Except.map]
+  · cases h6 : parseDatetime offU "2024-02-29" with
+    | none => rw [h6] at h5; cases h5
+    | some d =>
+      simp [validateData, detectTypes, detectCell, detectType, typesGet, typesSet, bucketLookup, convertRows, convertRow, convertCell,
+        h1, h6, Except.map]
+
 end C19
